@@ -717,7 +717,7 @@ struct Runner
 	explicit Runner(sim::simulation& sim) : s(sim)
 	{
 		if (R().args) livelock_limit = std::uint64_t(R().args->geti("livelock", 5000000));
-		s.verif_step_hook = [this]() {
+		s.verif_step_hook = [this]() -> bool {
 			Mon& m = M();
 			++m.steps;
 			clock_sample("step hook");
@@ -731,6 +731,9 @@ struct Runner
 				_exit(77);
 			}
 			if (on_step) on_step();
+			// engines that intervene from the hook may post work into a drained queue; an idle hook
+			// must leave run() exactly as it is without a hook
+			return bool(on_step);
 		};
 	}
 	~Runner() { s.verif_step_hook = nullptr; }
